@@ -104,7 +104,11 @@ def do_calls(mod_a, calls, plain):
                     f = f.with_context_args({"vfctx": 1})
                 elif modifier == "ignore":
                     f = f.ignore_result()
-            val = f(*args, **kw)
+            if not plain and modifier in ("batch", "range"):
+                # the same call made through the batch forms (the generated functions take x first)
+                val = f.call_batch([dict(kw, x=args[0])])[0] if modifier == "batch" else f.map_over_range(x=[args[0]])[args[0]]
+            else:
+                val = f(*args, **kw)
             if not plain and modifier == "ignore":
                 o = ("ignored", None)
             else:
